@@ -36,6 +36,7 @@ import (
 func init() {
 	register("C04.a", ruleC04a)
 	register("C04.b", ruleC04b)
+	register("C06.p", ruleC06p)
 	register("C14.p", ruleC14p)
 	register("C11.p", ruleC11p)
 }
@@ -540,6 +541,16 @@ func ruleC11p(c *Ctx) []*report.Result {
 	return c.engineCRestricted("C11.p", "the recovery routine deferred around every user method (catchPanic) is, instrumentation erased, the standard library's statement by statement (Engine C restricted to it): the nil-receiver shortcut comes before the re-raise of a nested panic, the panic report is bracketed as fmt does", 1, panicContainment)
 }
 
+// methodDispatch: the functions of fmt that decide WHICH code renders an
+// operand: a Formatter, error, Stringer or GoStringer method, or reflection,
+// at the top level and at depth. "The characters are those fmt prints for x"
+// (C06), "the text fmt would print" (C05) hold only if that decision is fmt's.
+var methodDispatch = map[string]bool{"*pp.printArg": true, "*pp.printValue": true, "*pp.handleMethods": true}
+
+func ruleC06p(c *Ctx) []*report.Result {
+	return c.engineCRestricted("C06.p", "which code renders an operand — its Formatter, error, Stringer or GoStringer method or reflection, at top level and at depth, with the value or with what an interface slot holds — is decided by printArg, printValue and handleMethods exactly as in the standard library (Engine C restricted to them, instrumentation erased): the wrappers and classifications of the fork change where the text goes, not which text it is", 3, methodDispatch)
+}
+
 // engineCRestricted is Engine C (a2, or a3(ii) when the recorded patch is
 // not current) for a named set of imported functions.
 func (c *Ctx) engineCRestricted(id, text string, floor int, set map[string]bool) []*report.Result {
@@ -637,8 +648,15 @@ func GenEvolution(c *Ctx) error {
 }
 
 // ruleC04b: writePadding emits exactly n copies of the pad byte.
+//
+// The rule computes, it does not match a shape: the pad byte is resolved
+// through the branch on f.zero (either polarity, if/else or overwrite form),
+// and the number of iterations of the loop around the one byte write is
+// derived from its induction variable (initial value, step +1 or -1, exit
+// comparison in either orientation, all linear in n) and must be n for every
+// n >= 1; for n <= 0 the function must have returned before anything else.
 func ruleC04b(c *Ctx) []*report.Result {
-	r := report.NewResult("C04.b", "(*fmt).writePadding: returns at once for n <= 0; the pad byte is '0' iff f.zero, else ' '; the only writes are one writeByte(padByte) per iteration of a loop running i from 0 while i < n in steps of 1 — exactly n pad bytes", 4)
+	r := report.NewResult("C04.b", "(*fmt).writePadding: returns at once for n <= 0; the pad byte is '0' iff f.zero, else ' '; the only writes are one writeByte(padByte) per iteration of a counting loop whose number of iterations, computed from its induction variable, initial value, step and exit test, is exactly n", 4)
 	fn := c.P.Func("internal/rfmt", "(*fmt).writePadding")
 	if fn == nil {
 		r.Undecide("(*fmt).writePadding not found")
@@ -646,23 +664,121 @@ func ruleC04b(c *Ctx) []*report.Result {
 	}
 	pos := c.P.Pos(fn.Pos())
 	n := fn.Params[1]
-	// entry: if n <= 0 return
+	// linear term a*n+b
+	type lin struct{ a, b int64 }
+	var linOf func(v ssa.Value, depth int) (lin, bool)
+	linOf = func(v ssa.Value, depth int) (lin, bool) {
+		if depth > 6 {
+			return lin{}, false
+		}
+		if v == ssa.Value(n) {
+			return lin{1, 0}, true
+		}
+		if k, ok := intConst(v); ok {
+			return lin{0, k}, true
+		}
+		if bo, ok := v.(*ssa.BinOp); ok && (bo.Op == token.ADD || bo.Op == token.SUB) {
+			x, ok1 := linOf(bo.X, depth+1)
+			y, ok2 := linOf(bo.Y, depth+1)
+			if ok1 && ok2 {
+				if bo.Op == token.ADD {
+					return lin{x.a + y.a, x.b + y.b}, true
+				}
+				return lin{x.a - y.a, x.b - y.b}, true
+			}
+		}
+		return lin{}, false
+	}
+	// ray of a comparison between n and a constant: the set where it is true, as "n <= c" (le) or "n >= c"
+	rayOf := func(v ssa.Value) (le bool, cst int64, ok bool) {
+		neg := false
+		for {
+			u, isU := v.(*ssa.UnOp)
+			if !isU || u.Op != token.NOT {
+				break
+			}
+			neg = !neg
+			v = u.X
+		}
+		bo, isB := v.(*ssa.BinOp)
+		if !isB {
+			return
+		}
+		op := bo.Op
+		var k int64
+		if bo.X == ssa.Value(n) {
+			kk, isK := intConst(bo.Y)
+			if !isK {
+				return
+			}
+			k = kk
+		} else if bo.Y == ssa.Value(n) {
+			kk, isK := intConst(bo.X)
+			if !isK {
+				return
+			}
+			k = kk
+			op = map[token.Token]token.Token{token.LSS: token.GTR, token.LEQ: token.GEQ, token.GTR: token.LSS, token.GEQ: token.LEQ}[op]
+		} else {
+			return
+		}
+		switch op {
+		case token.LEQ:
+			le, cst = true, k
+		case token.LSS:
+			le, cst = true, k-1
+		case token.GEQ:
+			le, cst = false, k
+		case token.GTR:
+			le, cst = false, k+1
+		default:
+			return
+		}
+		if neg {
+			if le {
+				le, cst = false, cst+1
+			} else {
+				le, cst = true, cst-1
+			}
+		}
+		return le, cst, true
+	}
+	// entry: n <= 0 returns, in any spelling
 	okGuard := false
 	if iff, ok := fn.Blocks[0].Instrs[len(fn.Blocks[0].Instrs)-1].(*ssa.If); ok {
-		if bo, ok := iff.Cond.(*ssa.BinOp); ok && bo.Op == token.LEQ && bo.X == ssa.Value(n) {
-			if k, ok := intConst(bo.Y); ok && k == 0 {
-				if _, isRet := fn.Blocks[0].Succs[0].Instrs[len(fn.Blocks[0].Succs[0].Instrs)-1].(*ssa.Return); isRet {
+		pure := true
+		for _, ins := range fn.Blocks[0].Instrs {
+			switch ins.(type) {
+			case *ssa.BinOp, *ssa.UnOp, *ssa.If, *ssa.DebugRef:
+			default:
+				pure = false
+			}
+		}
+		if le, cst, ok := rayOf(iff.Cond); ok && pure {
+			retSucc := -1
+			if le && cst == 0 {
+				retSucc = 0
+			} else if !le && cst == 1 {
+				retSucc = 1
+			}
+			if retSucc >= 0 {
+				sb := fn.Blocks[0].Succs[retSucc]
+				if _, isRet := sb.Instrs[len(sb.Instrs)-1].(*ssa.Return); isRet && len(sb.Instrs) == 1 {
 					okGuard = true
 				}
 			}
 		}
 	}
-	r.Check(okGuard, "(*internal/rfmt.fmt).writePadding / no padding for n <= 0", pos, "the function must return immediately when n <= 0")
+	r.Check(okGuard, "(*internal/rfmt.fmt).writePadding / no padding for n <= 0", pos, "the function must return immediately exactly when n <= 0")
 	// writes: calls into the writer layer
 	var writes []*ssa.Call
 	var other []string
 	for _, b := range fn.Blocks {
 		for _, ins := range b.Instrs {
+			switch x := ins.(type) {
+			case *ssa.Store, *ssa.MapUpdate, *ssa.Defer, *ssa.Go, *ssa.Send, *ssa.Panic:
+				other = append(other, x.String())
+			}
 			call, ok := ins.(*ssa.Call)
 			if !ok {
 				continue
@@ -683,61 +799,240 @@ func ruleC04b(c *Ctx) []*report.Result {
 			}
 		}
 	}
-	r.Check(len(other) == 0, "(*internal/rfmt.fmt).writePadding / only byte writes", pos, fmt.Sprintf("unexpected calls %v", other))
+	r.Check(len(other) == 0, "(*internal/rfmt.fmt).writePadding / only byte writes", pos, fmt.Sprintf("unexpected calls or effects %v", other))
 	if len(writes) != 1 {
 		r.Fail("(*internal/rfmt.fmt).writePadding / one write per iteration", pos, fmt.Sprintf("%d byte-write sites, want exactly one inside the counting loop", len(writes)), nil, "")
 		return []*report.Result{r}
 	}
 	w := writes[0]
-	// pad byte: phi of ' ' and '0' selected by f.zero
+	// pad byte: ' ' or '0' selected by f.zero, '0' exactly on the side where f.zero is true
 	okPad := false
-	if ph, ok := w.Common().Args[1].(*ssa.Phi); ok && len(ph.Edges) == 2 {
-		vals := map[int64]bool{}
-		for _, e := range ph.Edges {
-			if k, ok := intConst(e); ok {
-				vals[k] = true
+	why := "the pad byte must be '0' when f.zero is set and ' ' otherwise"
+	if ph, ok := w.Common().Args[len(w.Common().Args)-1].(*ssa.Phi); ok {
+		var zeroPreds, spacePreds []*ssa.BasicBlock
+		bad := false
+		for i, e := range ph.Edges {
+			if e == ssa.Value(ph) {
+				continue // carried around the loop
+			}
+			k, isK := intConst(e)
+			switch {
+			case isK && k == '0':
+				zeroPreds = append(zeroPreds, ph.Block().Preds[i])
+			case isK && k == ' ':
+				spacePreds = append(spacePreds, ph.Block().Preds[i])
+			default:
+				bad = true
 			}
 		}
-		okPad = vals[' '] && vals['0']
-		// the branch selecting '0' is on f.zero
-		for _, p := range ph.Block().Preds {
-			if iff, ok := p.Instrs[len(p.Instrs)-1].(*ssa.If); ok {
-				if loadedField(iff.Cond) != "zero" {
+		// the deciding branch
+		var zb *ssa.BasicBlock
+		zTrue := -1
+		for _, b := range fn.Blocks {
+			iff, isIf := b.Instrs[len(b.Instrs)-1].(*ssa.If)
+			if !isIf {
+				continue
+			}
+			cond, neg := iff.Cond, false
+			for {
+				u, isU := cond.(*ssa.UnOp)
+				if !isU || u.Op != token.NOT {
+					break
+				}
+				neg = !neg
+				cond = u.X
+			}
+			if loadedField(cond) == "zero" {
+				if zb != nil {
+					bad = true
+				}
+				zb = b
+				zTrue = 0
+				if neg {
+					zTrue = 1
+				}
+			}
+		}
+		if !bad && zb != nil && len(zeroPreds) > 0 && len(spacePreds) > 0 {
+			// which way out of the deciding branch an edge into the phi comes from
+			sideOf := func(p *ssa.BasicBlock) int {
+				if p == zb {
+					if zb.Succs[0] == ph.Block() && zb.Succs[1] != ph.Block() {
+						return 0
+					}
+					if zb.Succs[1] == ph.Block() && zb.Succs[0] != ph.Block() {
+						return 1
+					}
+					return -1
+				}
+				for i, sb := range zb.Succs {
+					if sb != ph.Block() && len(sb.Preds) == 1 && sb.Dominates(p) {
+						return i
+					}
+				}
+				return -1
+			}
+			okPad = true
+			for _, p := range zeroPreds {
+				if sideOf(p) != zTrue {
+					okPad = false
+				}
+			}
+			for _, p := range spacePreds {
+				if sideOf(p) != 1-zTrue {
 					okPad = false
 				}
 			}
 		}
 	}
-	r.Check(okPad, "(*internal/rfmt.fmt).writePadding / pad byte", pos, "the pad byte must be '0' when f.zero is set and ' ' otherwise")
-	// loop: header phi i = [0, i+1]; cond i < n; body contains the write
-	okLoop := false
-	lb := w.Block()
-	for _, b := range fn.Blocks {
-		iff, ok := b.Instrs[len(b.Instrs)-1].(*ssa.If)
-		if !ok {
-			continue
-		}
-		bo, ok := iff.Cond.(*ssa.BinOp)
-		if !ok || bo.Op != token.LSS || bo.Y != ssa.Value(n) {
-			continue
-		}
-		ph, ok := bo.X.(*ssa.Phi)
-		if !ok || len(ph.Edges) != 2 {
-			continue
-		}
-		init, step := false, false
-		for _, e := range ph.Edges {
-			if k, ok := intConst(e); ok && k == 0 {
-				init = true
+	r.Check(okPad, "(*internal/rfmt.fmt).writePadding / pad byte", pos, why)
+	// the loop around the write and its trip count
+	okLoop, lwhy := func() (bool, string) {
+		lb := w.Block()
+		// the header: a block ending in a comparison, from which lb is reached and which lb reaches again
+		reach := func(from, to *ssa.BasicBlock, avoid *ssa.BasicBlock) bool {
+			seen := map[*ssa.BasicBlock]bool{}
+			var dfs func(b *ssa.BasicBlock) bool
+			dfs = func(b *ssa.BasicBlock) bool {
+				if b == to {
+					return true
+				}
+				if seen[b] || b == avoid {
+					return false
+				}
+				seen[b] = true
+				for _, s := range b.Succs {
+					if dfs(s) {
+						return true
+					}
+				}
+				return false
 			}
-			if d, ok := plusConst(e, ph); ok && d == 1 {
-				step = true
+			for _, s := range from.Succs {
+				if dfs(s) {
+					return true
+				}
+			}
+			return false
+		}
+		var hdr *ssa.BasicBlock
+		for _, b := range fn.Blocks {
+			if _, isIf := b.Instrs[len(b.Instrs)-1].(*ssa.If); isIf && b.Dominates(lb) && b != lb && reach(lb, b, nil) {
+				if hdr == nil || hdr.Dominates(b) {
+					hdr = b
+				}
 			}
 		}
-		if init && step && b.Succs[0] == lb && len(lb.Succs) == 1 && lb.Succs[0] == b {
-			okLoop = true
+		if hdr == nil {
+			return false, "the byte write is not inside a loop with a tested bound"
 		}
+		iff := hdr.Instrs[len(hdr.Instrs)-1].(*ssa.If)
+		// body side of the test
+		bodySucc := -1
+		for i, s := range hdr.Succs {
+			if s == lb || (s.Dominates(lb) && reach(s, hdr, nil)) {
+				bodySucc = i
+			}
+		}
+		if bodySucc < 0 {
+			return false, "cannot tell which side of the loop test is the body"
+		}
+		// the body is a straight chain from the test back to it, with the write on it
+		cur := hdr.Succs[bodySucc]
+		onChain := false
+		for steps := 0; ; steps++ {
+			if cur == lb {
+				onChain = true
+			}
+			if steps > 8 || len(cur.Succs) != 1 {
+				return false, "the loop body branches: the number of writes per iteration is not evidently one"
+			}
+			if cur.Succs[0] == hdr {
+				break
+			}
+			cur = cur.Succs[0]
+		}
+		if !onChain {
+			return false, "the byte write is not on the loop's body chain"
+		}
+		cond, neg := iff.Cond, bodySucc == 1
+		for {
+			u, isU := cond.(*ssa.UnOp)
+			if !isU || u.Op != token.NOT {
+				break
+			}
+			neg = !neg
+			cond = u.X
+		}
+		bo, isB := cond.(*ssa.BinOp)
+		if !isB {
+			return false, "the loop test is not a comparison"
+		}
+		op := bo.Op
+		ph, isPh := bo.X.(*ssa.Phi)
+		bound := bo.Y
+		if !isPh || ph.Block() != hdr {
+			ph, isPh = bo.Y.(*ssa.Phi)
+			bound = bo.X
+			op = map[token.Token]token.Token{token.LSS: token.GTR, token.LEQ: token.GEQ, token.GTR: token.LSS, token.GEQ: token.LEQ, token.NEQ: token.NEQ, token.EQL: token.EQL}[op]
+			if !isPh || ph.Block() != hdr {
+				return false, "the loop test does not compare the loop's induction variable"
+			}
+		}
+		if neg {
+			op = map[token.Token]token.Token{token.LSS: token.GEQ, token.LEQ: token.GTR, token.GTR: token.LEQ, token.GEQ: token.LSS, token.NEQ: token.EQL, token.EQL: token.NEQ}[op]
+		}
+		bl, okb := linOf(bound, 0)
+		if !okb {
+			return false, "the loop bound is not linear in n"
+		}
+		var init lin
+		haveInit, step := false, int64(0)
+		for i, e := range ph.Edges {
+			p := hdr.Preds[i]
+			if hdr.Dominates(p) { // back edge
+				d, okd := plusConst(e, ph)
+				if !okd || (d != 1 && d != -1) || (step != 0 && step != d) {
+					return false, "the induction variable does not move in steps of one"
+				}
+				step = d
+			} else {
+				l, okl := linOf(e, 0)
+				if !okl || (haveInit && l != init) {
+					return false, "the induction variable's initial value is not linear in n"
+				}
+				init, haveInit = l, true
+			}
+		}
+		if !haveInit || step == 0 {
+			return false, "no induction variable"
+		}
+		// trip count for n >= 1 (the guard has dealt with n <= 0)
+		var cnt lin
+		switch {
+		case step == 1 && op == token.LSS:
+			cnt = lin{bl.a - init.a, bl.b - init.b}
+		case step == 1 && op == token.LEQ:
+			cnt = lin{bl.a - init.a, bl.b - init.b + 1}
+		case step == 1 && op == token.NEQ:
+			cnt = lin{bl.a - init.a, bl.b - init.b}
+		case step == -1 && op == token.GTR:
+			cnt = lin{init.a - bl.a, init.b - bl.b}
+		case step == -1 && op == token.GEQ:
+			cnt = lin{init.a - bl.a, init.b - bl.b + 1}
+		case step == -1 && op == token.NEQ:
+			cnt = lin{init.a - bl.a, init.b - bl.b}
+		default:
+			return false, fmt.Sprintf("loop test %s with step %+d does not terminate after a computable number of iterations", op, step)
+		}
+		if cnt != (lin{1, 0}) {
+			return false, fmt.Sprintf("the loop runs %d*n%+d times, want n: the number of pad bytes is wrong for some n", cnt.a, cnt.b)
+		}
+		return true, ""
+	}()
+	if lwhy == "" {
+		lwhy = "the write must be the body of a loop that runs exactly n times"
 	}
-	r.Check(okLoop, "(*internal/rfmt.fmt).writePadding / counting loop", pos, "the write must be the body of `for i := 0; i < n; i++`: any other bound, step or chunking changes the number of pad bytes for some n")
+	r.Check(okLoop, "(*internal/rfmt.fmt).writePadding / counting loop", pos, lwhy)
 	return []*report.Result{r}
 }
